@@ -1,5 +1,7 @@
 import RsslVerif.Gen.HashSites
+import RsslVerif.Gen.EnumRange
 import RsslVerif.Model.HashOrder
+import RsslVerif.Lemmas.EnumRange
 /-!
 # C07 — compilation is deterministic
 
@@ -100,40 +102,173 @@ theorem fold_perm_invariant {α β : Type} (op : β → α → β)
   | swap x y l => simp only [List.foldl_cons]; rw [comm]
   | trans _ _ ih₁ ih₂ => exact (ih₁ init).trans (ih₂ init)
 
-/-- the reviewed iteration sites, each with the shape that makes it order independent -/
-def classified : List ((String × String × String) × String) := [
-  (("ir/src/ir_module.rs", "process_definition", "for:inline_size|sorts:self.inline_constant_buffers"),
-     "collectSort: inline_constant_buffers.sort() follows; sets are distinct map keys"),
-  (("ir/src/name_generator.rs", "build", "for:&scopes|sorts:name_to_symbol_vec"),
-     "insertOnly: per-scope naming depends on the scope alone (inner sort_by over distinct names); results keyed by distinct symbols; used_names_all_scopes is a set union"),
-  (("ir/src/name_generator.rs", "build", "for:usage.get_usage_for_function(id)"),
-     "insertOnly: the names of used functions / globals are inserted into the set used_names_all_scopes (since fix 6bac604); the set is only tested for membership by the local-variable pass (C15 build_scope_order_independent covers the new model)"),
-  (("ir/src/usage_analysis.rs", "recurse", "for:&current_set.required"),
-     "fixpoint: union of required sets, iterated until nothing changes"),
-  (("ir/src/usage_analysis.rs", "recurse", "method:self.0.keys"),
-     "fixpoint: the key order only changes how fast the least fixpoint is reached"),
-  (("msl/src/generator.rs", "analyse_globals", "for:global_usage.get_usage_for_function(id)|sorts:required_globals"),
-     "collectSort: required_globals.sort() follows (derived Ord); called_functions is a set"),
-  (("msl/src/generator/intrinsic_helpers.rs", "generate_helpers", "from_iter:required_helpers|sorts:objects,ordered"),
-     "collectSort: objects.sort_by(key) over distinct map keys; inner Vec::from_iter(helpers).sort()"),
-  (("typer/src/typer/scopes.rs", "build_function_template_signature", "for:&self.scopes[old_scope_id].symbols"),
-     "insertOnly: template parameter symbols are re-inserted under their own distinct names"),
-  (("typer/src/typer/scopes.rs", "build_function_template_signature", "for:self.scopes[old_scope_id].symbols.values()"),
-     "insertOnly: assertions only"),
-  (("typer/src/typer/scopes.rs", "build_function_template_signature", "method:self.scopes[old_scope_id].symbols.values"),
-     "insertOnly: assertions only"),
-  (("typer/src/typer/scopes.rs", "build_function_template_signature", "for:symbols"),
-     "vec: `symbols` here is the Vec stored as a map value"),
-  (("typer/src/typer/scopes.rs", "end_enum", "for:symbols"), "vec: map value"),
-  (("typer/src/typer/scopes.rs", "find_identifier_in_scope", "for:symbols"), "vec: map value"),
-  (("typer/src/typer/scopes.rs", "walk_into_scopes", "for:symbols"), "vec: map value"),
-  (("typer/src/typer/scopes.rs", "extract_locals", "method:self.variables.iter"),
-     "unobserved: fills ScopedDeclarations.variables in hash order; no exporter reads its order (scoped_declarations_unobserved)")]
+/-- A loop that only checks its elements (assertions, `unreachable!`, `return None`, `?`): WHETHER it fails does
+    not depend on the iteration order. -/
+theorem firstFailure_ok_perm_invariant {α ε : Type} (check : α → Option ε) {l₁ l₂ : List α} (h : l₁.Perm l₂) :
+    firstFailure check l₁ = .ok () ↔ firstFailure check l₂ = .ok () := by
+  have key : ∀ l : List α, firstFailure check l = .ok () ↔ ∀ a ∈ l, check a = none := by
+    intro l
+    unfold firstFailure
+    cases hf : l.findSome? check with
+    | none => simpa using List.findSome?_eq_none_iff.1 hf
+    | some e =>
+      obtain ⟨a, ha, hc⟩ := List.exists_of_findSome?_eq_some hf
+      simp only [reduceCtorEq, false_iff]
+      intro H
+      have := H a ha
+      simp [hc] at this
+  rw [key, key]
+  exact ⟨fun H a ha => H a (h.mem_iff.2 ha), fun H a ha => H a (h.mem_iff.1 ha)⟩
 
-/-- Tie to the source: every place where the current tree iterates a hash container is a reviewed
-    one.  A new iteration site (or a renamed one) makes this obligation fail until it is classified. -/
+/-- ... and WHAT it reports does not either when every failing element reports the same payload (a constant
+    panic message, a constant `None`).  This is the reading behind the `effects` notes of `classified`. -/
+theorem firstFailure_perm_invariant {α ε : Type} (check : α → Option ε) {l₁ l₂ : List α} (h : l₁.Perm l₂)
+    (same : ∀ a ∈ l₁, ∀ b ∈ l₁, ∀ e₁ e₂, check a = some e₁ → check b = some e₂ → e₁ = e₂) :
+    firstFailure check l₁ = firstFailure check l₂ := by
+  unfold firstFailure
+  cases h1 : l₁.findSome? check with
+  | none =>
+    have hn : ∀ a ∈ l₂, check a = none := fun a ha => List.findSome?_eq_none_iff.1 h1 a (h.mem_iff.2 ha)
+    rw [List.findSome?_eq_none_iff.2 hn]
+  | some e₁ =>
+    obtain ⟨a, ha, hca⟩ := List.exists_of_findSome?_eq_some h1
+    cases h2 : l₂.findSome? check with
+    | none =>
+      have := List.findSome?_eq_none_iff.1 h2 a (h.mem_iff.1 ha)
+      simp [hca] at this
+    | some e₂ =>
+      obtain ⟨b, hb, hcb⟩ := List.exists_of_findSome?_eq_some h2
+      have := same a ha b (h.mem_iff.2 hb) e₁ e₂ hca hcb
+      simp [this]
+
+/-- why a site is order independent -/
+inductive Shape where
+  /-- collect into a Vec, then `sort` with an antisymmetric order / injective key (`sort_perm_invariant`) -/
+  | collectSort
+  /-- results go into another map / set under distinct keys (`lookup_perm_invariant`) -/
+  | insertOnly
+  /-- the iterations commute (`fold_perm_invariant`, `Lemmas.EnumRange.foldl_perm_of_invariant`) -/
+  | commutativeFold
+  /-- monotone closure iterated to its least fixpoint -/
+  | fixpoint
+  /-- the ordered result is stored but no consumer reads its order -/
+  | unobserved
+  /-- the body only checks its elements (`assert!`, `unreachable!`): whether a check fails does not depend on
+      the order (`firstFailure_ok_perm_invariant`); what a failing check reports is reviewed in `effects` -/
+  | checksOnly
+  /-- not a hash iteration at all: the loop walks a `Vec` stored as a map *value*, in push order -/
+  | mapValueVec
+  /-- this very body is transcribed into a Lean model and its order independence is a theorem about the model -/
+  | modelled
+  deriving DecidableEq, Repr
+
+/-- one reviewed iteration site: the key (file, fn, how, bodyHash) must match the regenerated inventory -/
+structure Reviewed where
+  file : String
+  fn : String
+  how : String
+  /-- fingerprint of the body that was reviewed -/
+  bodyHash : String
+  shape : Shape
+  /-- why early exits / diagnostics / first-wins tests inside the body are harmless ("" = the body has none) -/
+  effects : String
+  note : String
+
+/-- the reviewed iteration sites of the CURRENT source, each body read once -/
+def classified : List Reviewed := [
+  ⟨"ir/src/ir_module.rs", "process_definition", "for:inline_size|sorts:self.inline_constant_buffers", "dad79e496df3",
+    .collectSort, "", "inline_constant_buffers.sort() follows (derived Ord over (set, location, size)); sets are distinct map keys"⟩,
+  ⟨"ir/src/name_generator.rs", "build", "for:&scopes|sorts:name_to_symbol_vec", "62732911e785",
+    .modelled, "`break candidate` leaves the inner counter loop, not the scope loop; the panic message of a duplicate symbol is unreachable (symbols are distinct keys); is_some() tests that insert result",
+    "C15.build_scope_order_independent: per-scope naming depends on the scope alone (inner sort_by over distinct names); results keyed by distinct symbols; used_names_all_scopes is a set union"⟩,
+  ⟨"ir/src/name_generator.rs", "build", "for:usage.get_usage_for_function(id)", "4784f8bb120e",
+    .commutativeFold, "", "set insertion into used_names_all_scopes, only tested for membership afterwards (C15.build_scope_order_independent covers the model)"⟩,
+  ⟨"ir/src/usage_analysis.rs", "recurse", "for:&current_set.required", "d1adc5ed101f",
+    .fixpoint, "", "union of required sets (C02.closure_order_independent)"⟩,
+  ⟨"ir/src/usage_analysis.rs", "recurse", "for:&keys|from:self.0", "793b2e4a0dae",
+    .fixpoint, "", "the key order only changes how fast the least fixpoint is reached (C02.closure_order_independent)"⟩,
+  ⟨"ir/src/usage_analysis.rs", "recurse", "method:self.0.keys", "791d50d5c7b4",
+    .fixpoint, "", "keys collected once, in hash order, for the fixpoint loop above"⟩,
+  ⟨"msl/src/generator.rs", "analyse_globals", "for:global_usage.get_usage_for_function(id)|sorts:required_globals", "ccd2250ffa8e",
+    .collectSort, "panic!(\"Non-type template parameter is DispatchMesh\") has a constant message and guards a typer invariant; the two assert!s guard `intrinsic globals have no mode` / `DispatchMesh has one template argument` with constant texts",
+    "required_globals.sort() follows (derived Ord; C02.required_order_independent); called_functions is a set"⟩,
+  ⟨"msl/src/generator/intrinsic_helpers.rs", "generate_helpers", "for:objects|from:required_helpers|sorted-before", "cc1c54166cc5",
+    .collectSort, "`?` leaves at the first failing helper of a SORTED walk: objects.sort_by(key) precedes the loop and `ordered.sort()` the inner one",
+    "objects.sort_by over distinct map keys; inner Vec::from_iter(helpers).sort()"⟩,
+  ⟨"msl/src/generator/intrinsic_helpers.rs", "generate_helpers", "from_iter:required_helpers|sorts:objects,ordered", "cd70f416dbdb",
+    .collectSort, "", "Vec::from_iter(required_helpers) immediately followed by sort_by(key) over distinct map keys"⟩,
+  ⟨"typer/src/typer/scopes.rs", "build_function_template_signature", "for:&self.scopes[old_scope_id].symbols", "7746252ec217",
+    .insertOnly, "`return None` leaves with a constant value and nothing observable done (new_symbols is a local): `∃ mismatching parameter` does not depend on the order",
+    "template parameter symbols are gathered under their own distinct names (map keys, one symbol each)"⟩,
+  ⟨"typer/src/typer/scopes.rs", "build_function_template_signature", "for:new_symbols|from:symbols", "b68c1f2d892c",
+    .insertOnly, "is_some() tests the result of insert under distinct names (keys of the source map): never true; the panic message is a constant",
+    "re-insertion of the gathered symbols under their distinct names, one-element vectors"⟩,
+  ⟨"typer/src/typer/scopes.rs", "build_function_template_signature", "for:self.scopes[old_scope_id].symbols.values()", "43432eb69114",
+    .checksOnly, "five assert!(!matches!(..)) per symbol: they guard `a template function scope holds only template parameters` (the scope is filled by the template parameter list alone); were two DIFFERENT ones violated, the assertion text quoted by the panic would follow the hash order — no source text reaches that state",
+    "assertions only (firstFailure_ok_perm_invariant)"⟩,
+  ⟨"typer/src/typer/scopes.rs", "build_function_template_signature", "method:self.scopes[old_scope_id].symbols.values", "eb511d922cc8",
+    .checksOnly, "the same loop, recorded by its method form", "assertions only (firstFailure_ok_perm_invariant)"⟩,
+  ⟨"typer/src/typer/scopes.rs", "build_function_template_signature", "for:symbols", "5071b0823b50",
+    .mapValueVec, "inner loop of the assertion loop above", "`symbols` is the Vec stored as a map value; assertions only"⟩,
+  ⟨"typer/src/typer/scopes.rs", "build_function_template_signature", "for:symbols", "7b840f1e8977",
+    .mapValueVec, "inner loop of the gathering loop above (one symbol per template parameter name)", "`symbols` is the Vec stored as a map value"⟩,
+  ⟨"typer/src/typer/scopes.rs", "end_enum", "for:enum_symbols", "838b04e3655d",
+    .modelled, "unreachable!() has a constant message; it guards `only enum values live in an enum scope`",
+    "drains the map into enum_values in hash order: this order IS the permutation parameter `vals` of Model.EnumRange.endEnum"⟩,
+  ⟨"typer/src/typer/scopes.rs", "end_enum", "for:&enum_values|from:enum_symbols", "af736ce73b79",
+    .modelled, "the `_ => panic!` arm is part of the model (its message quotes the offending constant)", "range loop = Model.EnumRange.gather (min/max fold; the `_ => panic!` arm is modelled with its message): end_enum_type_or_error_order_independent"⟩,
+  ⟨"typer/src/typer/scopes.rs", "end_enum", "for:&enum_values|from:enum_symbols", "1d70641d30f5",
+    .modelled, "panic! / unreachable!() arms are part of the model", "conversion loop = Model.EnumRange.convertStep (update_underlying_type under distinct value ids): end_enum_order_independent"⟩,
+  ⟨"typer/src/typer/scopes.rs", "end_enum", "for:&enum_values|from:enum_symbols", "fd74accc2485",
+    .modelled, "unwrap() and assert_eq!(symbols.len(), 1) are part of the model (with their messages)", "promotion loop = Model.EnumRange.promoteStep (per-name update + replacement count): end_enum_order_independent"⟩,
+  ⟨"typer/src/typer/scopes.rs", "end_enum", "for:enum_values|from:enum_symbols", "45774f126f3f",
+    .modelled, "is_some() tests the result of insert; the panic message is a constant: both in the model", "reinsertion = Model.EnumRange.reinsertStep (distinct names; constant panic message): end_enum_order_independent"⟩,
+  ⟨"typer/src/typer/scopes.rs", "end_enum", "for:symbols", "7ccfa991b261",
+    .mapValueVec, "", "inner loop of the promotion loop over the one-element Vec of the name"⟩,
+  ⟨"typer/src/typer/scopes.rs", "extract_locals", "method:self.variables.iter", "cd13c9cc2951",
+    .unobserved, "", "fills ScopedDeclarations.variables in hash order; no exporter reads its order (scoped_declarations_unobserved)"⟩,
+  ⟨"typer/src/typer/scopes.rs", "find_identifier_in_scope", "for:symbols", "b8568009a2af",
+    .mapValueVec, "first Type symbol of a Vec in push (= declaration) order", "`symbols` is the Vec stored as a map value"⟩,
+  ⟨"typer/src/typer/scopes.rs", "find_identifier_in_scope", "for:symbols", "ec05d7a8b47b",
+    .mapValueVec, "first non-function symbol of a Vec in push (= declaration) order; overloads are collected in that order (the candidate lists of ambiguity diagnostics)",
+    "`symbols` is the Vec stored as a map value"⟩,
+  ⟨"typer/src/typer/scopes.rs", "walk_into_scopes", "for:symbols", "98fd69e2a092",
+    .mapValueVec, "assert_eq!(current, step_start): at most one scope symbol per name, walked in push order", "`symbols` is the Vec stored as a map value"⟩]
+
+open RsslVerif.Gen.HashSites in
+/-- the review of a site of the regenerated inventory: same file, function, traversal AND body fingerprint -/
+def reviewOf (s : Site) : Option Reviewed :=
+  classified.find? (fun r => r.file == s.file && r.fn == s.fn && r.how == s.how && r.bodyHash == s.bodyHash)
+
+open RsslVerif.Gen.HashSites in
+/-- the body looks order sensitive: it can leave early / observe positions, build a diagnostic, or keep a first value -/
+def flagged (s : Site) : Bool := s.hasEarlyExit || s.buildsDiagnostic || s.firstWins
+
+/-- a classification is acceptable for a body with order-sensitive looking effects only if the body itself is
+    transcribed into a model (`modelled`), is not a hash iteration (`mapValueVec`), or carries a reviewed reason —
+    and never as a plain commutative fold -/
+def acceptable (r : Reviewed) (isFlagged : Bool) : Bool :=
+  !isFlagged || (r.shape != .commutativeFold && (r.shape == .modelled || r.effects != ""))
+
+/-- Tie to the source: every place where the current tree iterates a hash ordered container (a HashMap/HashSet,
+    or a Vec filled from one) is a reviewed one, and the body that was reviewed is the body that is there now.
+    A new site, a renamed one, or ANY change inside the loop body of a known site makes this obligation fail
+    until the body is read again and its fingerprint recorded. -/
 theorem hash_sites_covered :
-    RsslVerif.Gen.HashSites.sites.all (fun s => (classified.map (·.1)).contains s) = true := by decide
+    RsslVerif.Gen.HashSites.sites.all (fun s => (reviewOf s).isSome) = true := by decide +kernel
+
+/-- Tie to the source: a body that can leave early, builds a diagnostic or keeps the first value it meets is never
+    accepted as a commutative fold; it is modelled, or its effects were reviewed one by one. -/
+theorem site_effects_reviewed :
+    RsslVerif.Gen.HashSites.sites.all (fun s =>
+      match reviewOf s with
+      | none => false
+      | some r => acceptable r (flagged s)) = true := by decide +kernel
+
+/-- the review file is in sync: it has no entry for a body that is no longer in the source -/
+theorem classified_all_current :
+    classified.all (fun r => RsslVerif.Gen.HashSites.sites.any (fun s =>
+      r.file == s.file && r.fn == s.fn && r.how == s.how && r.bodyHash == s.bodyHash)) = true := by decide +kernel
 
 /-- Tie to the source: the one hash-ordered vector that is stored in the IR is only ever filtered. -/
 theorem scoped_declarations_unobserved :
@@ -141,6 +276,129 @@ theorem scoped_declarations_unobserved :
 
 /-- Tie to the source: no clocks, randomness, environment reads or threads in the compiler crates. -/
 theorem no_other_nondeterminism : RsslVerif.Gen.HashSites.otherNondeterminism = [] := by decide
+
+/-! ## Worked example of a commutative fold: `Context::end_enum` (typer/src/typer/scopes.rs)
+
+`enum_values` is filled by draining a `HashMap`, so every loop of `end_enum` runs in hash order.  The model
+`Model.EnumRange.endEnum` takes that order as its list argument. -/
+section EndEnum
+open RsslVerif.Model.EnumRange RsslVerif.Lemmas.EnumRange
+
+/-- Tie to the source: the loops of `end_enum` are the ones `Model/EnumRange.lean` transcribes — initial range
+    `(0, 0)`, six integer-like arms doing `min`/`max` on the widened value and a panicking `_` arm, the
+    `i32` / `u32` / error selection with the error located at the ENUM's name and carrying `(min, max)`, the
+    widening arms and the two wrapping conversions.  Any edit of these pieces (the seeded change C07-3 rewrites
+    the range loop and the error location) stops this theorem until the model is brought up to date. -/
+theorem end_enum_shape_as_modelled :
+    RsslVerif.Gen.EnumRange.init = [("min_value", "0"), ("max_value", "0")] ∧
+    RsslVerif.Gen.EnumRange.gatherPrefix =
+      "let constant = &self .module .enum_registry .get_enum_value(*enum_value_id) .value;" ∧
+    RsslVerif.Gen.EnumRange.gatherArms =
+      [("ir::Constant::Bool(value)", "", "{ min_value = std::cmp::min(min_value, value as i128); max_value = std::cmp::max(max_value, value as i128); }"),
+       ("ir::Constant::IntLiteral(value)", "", "{ min_value = std::cmp::min(min_value, value); max_value = std::cmp::max(max_value, value); }"),
+       ("ir::Constant::Int32(value)", "", "{ min_value = std::cmp::min(min_value, value as i128); max_value = std::cmp::max(max_value, value as i128); }"),
+       ("ir::Constant::UInt32(value)", "", "{ min_value = std::cmp::min(min_value, value as i128); max_value = std::cmp::max(max_value, value as i128); }"),
+       ("ir::Constant::Int64(value)", "", "{ min_value = std::cmp::min(min_value, value as i128); max_value = std::cmp::max(max_value, value as i128); }"),
+       ("ir::Constant::UInt64(value)", "", "{ min_value = std::cmp::min(min_value, value as i128); max_value = std::cmp::max(max_value, value as i128); }"),
+       ("_", "", "panic!(\"invalid type inside enum value: {constant:?}\")")] ∧
+    RsslVerif.Gen.EnumRange.select =
+      "let scalar_type = if min_value >= i32::MIN as i128 && max_value <= i32::MAX as i128 { ir::ScalarType::Int32 } else if min_value >= u32::MIN as i128 && max_value <= u32::MAX as i128 { ir::ScalarType::UInt32 } else { let location = self .module .enum_registry .get_enum_definition(enum_id) .name .location; return Err(TyperError::EnumTypeCanNotBeDeduced( location, min_value, max_value, )); };" ∧
+    RsslVerif.Gen.EnumRange.widenArms =
+      [("ir::Constant::Bool(value)", "", "value as i128"),
+       ("ir::Constant::IntLiteral(value)", "", "value"),
+       ("ir::Constant::Int32(value)", "", "value as i128"),
+       ("ir::Constant::UInt32(value)", "", "value as i128"),
+       ("ir::Constant::Int64(value)", "", "value as i128"),
+       ("ir::Constant::UInt64(value)", "", "value as i128"),
+       ("_", "", "panic!(\"invalid type inside enum value: {constant:?}\")")] ∧
+    RsslVerif.Gen.EnumRange.convertArms =
+      [("ir::ScalarType::Int32", "", "ir::Constant::Int32(value as i32)"),
+       ("ir::ScalarType::UInt32", "", "ir::Constant::UInt32(value as u32)"),
+       ("_", "", "unreachable!()")] := by decide +kernel
+
+/-- the chosen underlying type, or the range error with its location and `(min, max)` payload -/
+def typeOrError (enumLoc : Loc) (vals : List Entry) : Except Failure Scalar :=
+  match gather vals with
+  | .error f => .error f
+  | .ok r => select enumLoc r
+
+/-- **The range computation of `end_enum` is order independent**: for every two iteration orders of the drained
+    symbol map, the chosen underlying type — or the rendered error: location (the enum's name), minimum and
+    maximum — is the same.  Hypothesis: every value is integer-like, the invariant `parse/typer` establish before
+    `register_enum_value` (`EnumValueMustBeInteger`); without it see `end_enum_panics_order_independent`. -/
+theorem end_enum_type_or_error_order_independent (enumLoc : Loc) {vals₁ vals₂ : List Entry}
+    (p : vals₁.Perm vals₂) (hint : ∀ e ∈ vals₁, e.value.widen?.isSome) :
+    typeOrError enumLoc vals₁ = typeOrError enumLoc vals₂ := by
+  unfold typeOrError
+  rw [gather_perm p hint]
+
+/-- Without the integer-like invariant: WHETHER the range loop panics is the same for every order (it does iff
+    some value is not integer-like). -/
+theorem end_enum_panics_order_independent {vals₁ vals₂ : List Entry} (p : vals₁.Perm vals₂) :
+    (∃ r, gather vals₁ = .ok r) ↔ (∃ r, gather vals₂ = .ok r) := by
+  rw [gather_ok_iff, gather_ok_iff]
+  exact ⟨fun h e he => h e (p.mem_iff.2 he), fun h e he => h e (p.mem_iff.1 he)⟩
+
+/-- ... but the panic MESSAGE is not: it quotes the first offending constant met.  (Unreachable from source
+    text: the typer rejects a non-integer enumerator before it is registered.)  This is why
+    `end_enum_type_or_error_order_independent` carries its hypothesis and is not stated for all constants. -/
+theorem gather_panic_message_order_dependent :
+    ∃ vals₁ vals₂ : List Entry, vals₁.Perm vals₂ ∧ gather vals₁ ≠ gather vals₂ :=
+  ⟨[⟨"A", 0, .other "Float(1.0)", 10⟩, ⟨"B", 1, .other "Float(2.0)", 20⟩],
+   [⟨"B", 1, .other "Float(2.0)", 20⟩, ⟨"A", 0, .other "Float(1.0)", 10⟩],
+   List.Perm.swap _ _ _, by decide⟩
+
+/-- **`end_enum` as a whole is order independent**: underlying type or error, the enum registry after the
+    conversion loop, the parent scope after the promotion loop and the re-filled enum scope are the same for
+    every two iteration orders of the drained symbol map.  Hypotheses = what the callers establish: values are
+    integer-like; names are distinct (they are the keys of one map) and so are value ids (fresh registry indices);
+    every name maps to a one-element vector in the parent scope (`register_enum_value` rejects a name that is
+    already defined there and then pushes onto a fresh vector). -/
+theorem end_enum_order_independent (enumLoc : Loc) (registry : Nat → Option Const) (parent : Scope)
+    {vals₁ vals₂ : List Entry} (p : vals₁.Perm vals₂)
+    (hint : ∀ e ∈ vals₁, e.value.widen?.isSome)
+    (hname : ∀ x ∈ vals₁, ∀ y ∈ vals₁, x.name = y.name → x = y)
+    (hid : ∀ x ∈ vals₁, ∀ y ∈ vals₁, x.id = y.id → x = y)
+    (hparent : ∀ e ∈ vals₁, ∃ syms, parent e.name = some syms ∧ syms.length = 1) :
+    endEnum enumLoc registry parent vals₁ = endEnum enumLoc registry parent vals₂ := by
+  have hconv : ∀ scalar, vals₁.foldl (convertStep scalar) (.ok registry) =
+      vals₂.foldl (convertStep scalar) (.ok registry) := fun scalar => convert_perm scalar p hint hid registry
+  unfold endEnum
+  rw [gather_perm p hint, promote_perm p hname parent hparent, reinsert_perm p hname, p.length_eq]
+  simp only [hconv]
+
+/-- The seeded variant C07-3 (error located at the first value after which no type fits) is NOT order
+    independent: the same three values in two orders blame two different locations.  The classification
+    "commutative fold" is a property of the body, which is why `hash_sites_covered` pins the body. -/
+theorem blame_first_order_dependent :
+    ∃ vals₁ vals₂ : List Entry, vals₁.Perm vals₂ ∧
+      (∀ e ∈ vals₁, e.value.widen?.isSome) ∧
+      gatherBlameFirst 5 vals₁ ≠ gatherBlameFirst 5 vals₂ ∧
+      typeOrError 5 vals₁ = typeOrError 5 vals₂ :=
+  ⟨[⟨"None", 0, .intLiteral 0, 10⟩, ⟨"Big", 1, .intLiteral 4294967296, 20⟩, ⟨"Bigger", 2, .intLiteral 4294967297, 30⟩],
+   [⟨"Bigger", 2, .intLiteral 4294967297, 30⟩, ⟨"None", 0, .intLiteral 0, 10⟩, ⟨"Big", 1, .intLiteral 4294967296, 20⟩],
+   by decide, by decide, by decide, by decide⟩
+
+/-! Non-vacuity: an enum whose range fits nothing (error with location 5 and the range), one that needs `uint`,
+    and the complete `end_enum` on a parent scope prepared as `register_enum_value` leaves it. -/
+example : typeOrError 5 [⟨"Neg", 0, .intLiteral (-1), 10⟩, ⟨"All", 1, .uint32 4294967295, 20⟩]
+    = .error (.rangeError 5 (-1) 4294967295) := by decide
+example : typeOrError 5 [⟨"A", 0, .intLiteral 1, 10⟩, ⟨"All", 1, .uint32 4294967295, 20⟩] = .ok .uint32 := by decide
+example : (match endEnum 5 (fun _ => none)
+      (fun n => if n = "A" then some [Sym.enumValueUntyped 0] else if n = "B" then some [Sym.enumValueUntyped 1] else none)
+      [⟨"B", 1, .intLiteral 7, 20⟩, ⟨"A", 0, .bool true, 10⟩] with
+    | .ok r => (r.scalar, r.registry 0, r.registry 1, r.parent "A", r.enumScope "B") ==
+        (Scalar.int32, some (Const.int32 1), some (Const.int32 7), some [Sym.enumValue 0], some [Sym.enumValue 1])
+    | .error _ => false) = true := by decide
+
+end EndEnum
+
+/-! Non-vacuity: a check-only loop with two failing elements that report the same constant. -/
+example : firstFailure (fun n : Nat => if n > 2 then some "duplicate" else none) [1, 5, 2, 7] =
+    firstFailure (fun n : Nat => if n > 2 then some "duplicate" else none) [7, 2, 1, 5] :=
+  firstFailure_perm_invariant _ (by decide) (by
+    intro a _ b _ e₁ e₂ h₁ h₂
+    split at h₁ <;> split at h₂ <;> simp_all)
 
 /-! Non-vacuity: two different iteration orders of one set, one result. -/
 example : collectSort (fun a b => decide (a ≤ b)) [3, 1, 2] = collectSort (fun a b => decide (a ≤ b)) [2, 3, 1] :=
